@@ -66,7 +66,7 @@ def run(ctx):
     for n, vs in enumerate(seqs):
         for enc in ENCS:
             jobs.append({"id": "hist-ver-%s-%s" % ("".join(map(str, vs)), enc),
-                         "job": {"mode": "seq", "procs": [[call(KINDS[(n + i) % 6], v, "enc", enc, reuse=True) for i, v in enumerate(vs)]]}})
+                         "job": {"mode": "seq", "procs": [[call(KINDS[(n + i) % 6], v, "enc", enc, reuse=True) for i, v in enumerate(vs)] + [call("BareParams", 0, "enc", enc, reuse=True)]]}})
     # the same on an encoder that is NOT cleared between messages (binary): each message's header sets the register anew
     for n, vs in enumerate(seqs):
         jobs.append({"id": "hist-ver-noclear-%s" % "".join(map(str, vs)),
